@@ -68,10 +68,28 @@ def inverse_search(chk, binary, theorem):
     tmin = Fraction(1, 2 ** 1022)
     fns = ["M%d%d.invert" % (n, n)] if "invert" in theorem else ["M%d%d.inverse" % (n, n), "M%d%d.invert" % (n, n)]
     vals = [0, 0, 1, -1, 2, -2, 3, Fraction(1, 2), Fraction(-1, 2), Fraction(1, 4), 5]
-    for trial in range(260):
-        kind = trial % 6
+    for trial in range(280):
+        kind = trial % 7
         m = [[Fraction(rng.choice(vals)) for _ in range(n)] for _ in range(n)]
-        if kind == 0:                                   # affine last column
+        if kind == 6:
+            # the overflow guard itself: row k of the guarded block (whole matrix; linear block of an affine matrix) scaled so that
+            # |det|/tmin lies between the two largest cofactors that do not contain row k: exactly one guard fails
+            K = n if (n == 2 or (n == 3 and trial % 14 == 6)) else n - 1
+            A = [[Fraction(rng.choice([1, -1, 2, -2, 3, -3, 5, 7])) for _ in range(K)] for _ in range(K)]
+            d = _det(A)
+            if d == 0:
+                continue
+            k = rng.randrange(K)
+            cs = sorted(set(abs(row[k]) for row in _adj(A)), reverse=True)
+            thr = (cs[0] + cs[1]) / 2 if len(cs) > 1 else cs[0] / 2
+            A[k] = [x * thr * tmin / abs(d) for x in A[k]]
+            m = [[Fraction(int(i == j)) for j in range(n)] for i in range(n)]
+            for i in range(K):
+                for j in range(K):
+                    m[i][j] = Fraction(float(A[i][j]))          # what the real code will be given
+            if K == n and n > 2 and all(m[i][n - 1] == 0 for i in range(n - 1)) and m[n - 1][n - 1] == 1:
+                continue
+        elif kind == 0:                                   # affine last column
             for i in range(n):
                 m[i][n - 1] = Fraction(int(i == n - 1))
         elif kind == 1:                                 # last column from {0,1}: near-affine patterns
